@@ -982,6 +982,20 @@ def m_snapshot( ctx ):
                      'poll() / read() add addresses from other threads without a lock; pulled item by item ( merge sorts its argument ) the iteration raises "dictionary changed size during iteration" in the poller thread, which dies: nothing is polled again' )
         else:
             res.ok( src, c, 'the addresses merged are a snapshot of self._data taken by one builtin call' )
+    # ---- every merged range is polled in every cycle: the loop over the ranges has no way out but its end ( no break / return in it ).  Left
+    # early "while the PLC is offline", recovery depends on which range the set happens to yield first: if that one is permanently refused
+    # by the device, every cycle ends after a single poll and the PLC is never seen online again - no requested register is read
+    rn = { t_.id for a_ in ast.walk( fn ) if isinstance( a_, ast.Assign ) and any( c is x for c in calls for x in ast.walk( a_.value )) for t_ in a_.targets if isinstance( t_, ast.Name ) }
+    loops = [ l_ for l_ in ast.walk( fn ) if isinstance( l_, ast.For ) and isinstance( l_.iter, ast.Name ) and l_.iter.id in rn ]
+    if not loops:
+        raise AnalysisError( 'poller_modbus._poller: the loop over the merged ranges not found' )
+    for l_ in loops:
+        outs = [ b_ for b_ in ast.walk( l_ ) if isinstance( b_, ( ast.Break, ast.Return )) and src.enclosing( b_, ( ast.For, ast.While )) is l_ ]
+        if outs:
+            res.bad( src, outs[0], 'the poll loop over the merged ranges is left early ( %s )' % norm_text( src.parent.get( outs[0] ).test if isinstance( src.parent.get( outs[0] ), ast.If ) else outs[0] )[:50],
+                     'the ranges behind it are not polled in that cycle; with the exit taken while offline and a first range the device permanently refuses, no cycle ever polls another range: the PLC stays offline and no requested register is read again' )
+        else:
+            res.ok( src, l_, 'every merged range is polled in every cycle ( the loop over them has no early exit )' )
     return res
 
 
@@ -1750,6 +1764,32 @@ def t_duration( ctx ):
             res.bad( src, frac[0], 'fraction form', 'DURSPEC_RE must capture "<s>.<fraction>s" as s_man / s_fra' )
     else:
         res.bad( src, fmt, 'fraction form', 'fractional seconds must be emitted as {us:0>6} and parsed with {:0<6} padding into microseconds' )
+    # ---- the chain of remainders: each unit's count AND the remainder handed on are taken from the remainder of the unit before ( the first
+    # from the whole seconds ).  A remainder taken from the whole again ( w_secs = seconds % WK ) agrees with the chain only while the larger
+    # unit is a multiple of the smaller - a year is not a whole number of weeks: from one year on the text parses to another duration
+    divs = [ a for a in fmt.body if isinstance( a, ast.Assign ) and isinstance( a.value, ast.BinOp ) and isinstance( a.value.op, ( ast.FloorDiv, ast.Mod ))
+             and isinstance( a.value.right, ast.Attribute ) and a.value.right.attr in units and isinstance( a.value.left, ast.Name ) and isinstance( a.targets[0], ast.Name ) ]
+    prev = None
+    whole = [ a.targets[0].id for a in fmt.body if isinstance( a, ast.Assign ) and isinstance( a.targets[0], ast.Name ) and 'delta.seconds' in txt( a.value ) ]
+    if not whole:
+        raise AnalysisError( 'duration._format: the whole-seconds total ( ... delta.seconds ) not found' )
+    cur = whole[0]; chain_bad = None; steps = 0
+    for u in ( 'YR', 'WK', 'DY', 'HR', 'MN' ):
+        du = [ a for a in divs if a.value.right.attr == u ]
+        for a in du:
+            steps += 1
+            if a.value.left.id != cur and chain_bad is None:
+                chain_bad = ( a, u, cur )
+        rem = [ a for a in du if isinstance( a.value.op, ast.Mod ) ]
+        if rem:
+            cur = rem[0].targets[0].id
+    if steps < 8:
+        raise AnalysisError( 'duration._format: division / remainder chain not recognised ( %d steps )' % steps )
+    if chain_bad is None:
+        res.ok( src, divs[0], 'each unit is counted in, and its remainder taken from, the remainder of the unit before ( %d steps )' % steps )
+    else:
+        a, u, want = chain_bad
+        res.bad( src, a, '_format: %s is not taken from the remainder of the unit before ( %s )' % ( norm_text( a ), want ), 'the units do not divide each other ( a year is 52 weeks and 1.25 days ): counted from the wrong dividend, a duration of a year or more is rendered as a text that parses back to a different duration' )
     return res
 
 
